@@ -2,6 +2,7 @@ import DarkluaModel.Util.Sexp
 import DarkluaModel.C18.Lex
 import DarkluaModel.C18.Model
 import DarkluaModel.C18.Spec
+import DarkluaModel.C18.Carriers
 /-!
 Line-protocol handlers for property C18.
 
@@ -14,6 +15,8 @@ Line-protocol handlers for property C18.
 * `c18.remove_comments <src> <pat>*`       → `code=… comments=… lines=… after=n` of `removeComments LitPat.isMatch pats (toFile src)`
 * `c18.remove_spaces <src>`                → same for `removeSpaces`
 * `c18.append <start|end> <text> <src>`    → same for `appendTextComment`
+* `c18.seq <src> <rule>*`                → same for a pipeline; rule = `S` (remove_spaces) or `C[+pat]*` (remove_comments)
+* `c18.carriers`                           → the carrier list of Carriers.lean: `Struct:section:field,…`
 * `c18.file <src>`                         → same for the unchanged file
   `pat` = two flag digits (anchored at start, anchored at end) followed by the hex literal, e.g. `10x2d2d21`.
 All byte strings are hex (`x…`). Ill-formed requests answer `bad-request`; a source the reference lexer
@@ -112,6 +115,21 @@ def handle (op : String) (args : List String) : String :=
   | "remove_comments", src :: pats =>
     match pats.mapM parsePat with
     | some ps => withFile src fun f => showFile (removeComments LitPat.isMatch ps f)
+    | none => "bad-request"
+  | "carriers", [] =>
+    ",".intercalate (carriers.map fun (s, sec, f) => s ++ ":" ++ sec.name ++ ":" ++ f)
+  | "seq", src :: rules =>
+    -- a pipeline: each rule is `S` (remove_spaces) or `C` followed by `+pat` for every except pattern
+    let step (acc : Option (File → File)) (r : String) : Option (File → File) :=
+      match acc, r.splitOn "+" with
+      | some k, ["S"] => some (removeSpaces ∘ k)
+      | some k, "C" :: pats =>
+        match pats.mapM parsePat with
+        | some ps => some (removeComments LitPat.isMatch ps ∘ k)
+        | none => none
+      | _, _ => none
+    match rules.foldl step (some id) with
+    | some k => withFile src fun f => showFile (k f)
     | none => "bad-request"
   | "append", [loc, text, src] =>
     match hexToBytes? text with
